@@ -822,9 +822,11 @@ struct Plan {
 
 fn plan(r: &mut Rng, stats: &mut Stats, is_recv: bool) -> Plan {
     let acked = r.chance(7, 10);
-    let seg = *r.pick(&[16u64, 20, 32, 48]);
+    // segment sizes: multiples of 4 and not (the modular checksum works on 4-octet words, so a segment size
+    // that is not a multiple of 4 shifts every later segment against the word grid - seeded change C07e)
+    let seg = *r.pick(&[16u64, 20, 32, 48, 18, 21, 27, 33]);
     let large = r.chance(1, 10);
-    let seg = if large && seg < 32 { 32 } else { seg };
+    let seg = if large && seg < 32 { seg + 16 } else { seg };
     let delay = *r.pick(&[0u64, 0, 50, 700]);
     let imm = r.chance(1, 2);
     let maxc = 1 + r.below(4);
